@@ -24,7 +24,8 @@ per-client keys, the fixed context otherwise – the purpose is *not* part of it
 
 Every per-client writer validates the client id first (`keystore.ValidateID`; on the pinned tree only
 `GenerateDataEncryptionKeys` did – `writesPinned`, repair 50). The *readers* and destroyers of the v1
-key store still take the id as given (known finding `v1-unvalidated-client-id-escapes`).
+key store validate it as well since repair 51 (`KeystoreSec/V1Methods.lean`: every id-taking method,
+every path handed to the storage).
 -/
 namespace AcraModel.KeystoreSec.V1WriteLog
 open AcraModel.KeystoreSec.Path AcraModel.KeystoreSec.V1
